@@ -29,6 +29,8 @@ def transform_ids(o, d):
 
 def available_measures(spec, strand=False):
     ms = list(STRAND_MEASURES if strand else ROW_MEASURES)
+    if spec.numarr is not None and "col_index" in ms:
+        ms.remove("col_index")  # the column index is not defined across a numeric array
     for m in ("mean", "stddev", "sum"):
         if m in spec.measures:
             ms.append(m)
